@@ -405,7 +405,7 @@ fn run(mode: &str, src: &str, files: Vec<IndexFile>, queries: &[BlobId]) -> Stri
                     }
                 }
             }
-            let (h, repo) = match RepoHandle::init(MemBackend::new(), None, &ConfigOptions::default()) {
+            let (h, repo) = match RepoHandle::init_nocache(MemBackend::new(), None, &ConfigOptions::default()) {
                 Ok(x) => x,
                 Err(e) => return errkind(&e),
             };
@@ -418,7 +418,7 @@ fn run(mode: &str, src: &str, files: Vec<IndexFile>, queries: &[BlobId]) -> Stri
                 }
             }
             drop(repo);
-            let repo = match h.open() {
+            let repo = match h.open_nocache() {
                 Ok(r) => r,
                 Err(e) => return errkind(&e),
             };
